@@ -39,7 +39,9 @@ def atom_facts(cond, truth):
         return out
     if k in ("ref", "member"):
         p = X.path(e)
-        if p:
+        # variable templates of the standard library (std::is_same_v<...>) share one qualified name over all their
+        # specialisations: no fact may be attached to that name
+        if p and not p.startswith("G:std::"):
             out.add(("eng:" + p) if t else ("dis:" + p))
         return out
     if k == "bin" and e.get("op") in ("==", "!="):
@@ -205,9 +207,11 @@ def _apply_kills(facts, dead):
             p = p.split("==", 1)[0]
         if f.startswith("ge:") or f.startswith("le:"):
             p = p.rsplit(":", 1)[0]
-        if f.startswith("imp:"):
-            b, g = f[4:].split("|", 1)
+        if f.startswith("imp:") or f.startswith("nimp:"):
+            b, g = f.split(":", 1)[1].split("|", 1)
             gp = g.split(":", 1)[1]
+            if g.startswith(("eq:", "ne:")):
+                gp = gp.split("==", 1)[0]
             if any(x == d or x.startswith(d + ".") or x.startswith(d + "[") for d in dead for x in (b, gp)):
                 continue
             out.add(f)
@@ -317,6 +321,10 @@ class MustFlow:
                     b, g = x[4:].split("|", 1)
                     if ("eng:" + b) in facts:
                         facts.add(g)
+                elif x.startswith("nimp:"):
+                    b, g = x[5:].split("|", 1)
+                    if ("dis:" + b) in facts:
+                        facts.add(g)
             facts = frozenset(facts)
         return facts
 
@@ -406,8 +414,11 @@ class MustFlow:
             return out
         if isinstance(r0, dict) and not (r0.get("k") == "call" and self.post is not None and self.post(r0.get("callee"))):
             for g in self._atom(r0, True):
-                if g.startswith(("eng:", "size>=", "alt:")):
+                if g.startswith(("eng:", "size>=", "alt:", "eq:", "ne:")):
                     out.add("imp:%s|%s" % (boolpath, g))
+            for g in self._atom(r0, False):
+                if g.startswith(("eq:", "ne:", "dis:")):
+                    out.add("nimp:%s|%s" % (boolpath, g))
         if self.post is None or not isinstance(r0, dict) or r0.get("k") != "call":
             return out
         summ = self.post(r0.get("callee"))
